@@ -1,7 +1,7 @@
 #!/bin/sh
 # tools/proc_seed.sh <worktree-name> [PROP]  -- confirm the seeds (a, b) of ${SEEDROOT}/<name> and try each against the quick check of its property on a scratch copy
 wt=$1; prop=${2:-$(echo $wt | cut -c1-3)}
-SEEDROOT=${SEEDROOT:-/tmp/seed5}; export SEEDROOT
+SEEDROOT=${SEEDROOT:-/tmp/seed8}; export SEEDROOT
 cd /verif
 timeout 1500 sh tools/confirm_seed.sh $wt
 for v in a b c d e; do
